@@ -321,6 +321,11 @@ func (d *c16Driver) msgCode(m any) int64 {
 	switch v := m.(type) {
 	case *testpb.TestCount:
 		return int64(v.GetValue())
+	case *commands.AsyncRequest:
+		if c, ok := v.Message.(*testpb.TestCount); ok {
+			return int64(c.GetValue())
+		}
+		return 1 << 41
 	case *commands.AsyncResponse:
 		return -(1 + int64(d.idOf(v.CorrelationID))*8 + c16RespKind(v))
 	default:
@@ -474,7 +479,13 @@ func (d *c16Driver) apply(op [3]int, nextIsFinish bool) (skip bool) {
 	pid, ctx := d.pid, d.ctx
 	switch op[0] {
 	case c16OArrive:
-		if err := Tell(ctx, pid, &testpb.TestCount{Value: d.nextu}); err == nil {
+		var msg any = &testpb.TestCount{Value: d.nextu}
+		if op[1] == 1 {
+			// the ordinary message is somebody else's Request: it arrives wrapped in an AsyncRequest envelope
+			msg = &commands.AsyncRequest{CorrelationID: "in-" + strconv.Itoa(int(d.nextu)),
+				ReplyTo: &commands.AsyncReplyTo{Kind: commands.ReplyToActor, Actor: pathToAddress(d.target.Path())}, Message: msg}
+		}
+		if err := d.target.Tell(ctx, pid, msg); err == nil {
 			d.nextu++
 		}
 	case c16OReply:
